@@ -56,16 +56,33 @@ func (dec *Decoder) fastReadStringAsBytes(utf16Length int) (data []byte) {
 			return
 		}
 	}
+	if off > len(buf) {
+		// a truncated character at the very end of the input
+		if dec.Error == nil {
+			dec.Error = ErrInvalidUTF8
+		}
+		off = len(buf)
+	}
 	dec.head += off
 	return buf[:off]
 }
 
 func (dec *Decoder) readStringAsBytes(utf16Length int) (data []byte, safe bool) {
+	if utf16Length < 0 {
+		dec.invalidLength("string length", utf16Length)
+		return nil, true
+	}
 	if (utf16Length == 0) || (dec.head == dec.tail) && !dec.loadMore() {
 		return nil, true
 	}
 	length := dec.tail - dec.head
-	if length >= utf16Length*3 {
+	if dec.reader == nil && utf16Length > length {
+		// every UTF-16 unit takes at least one byte: the input ends before the string does
+		dec.head = dec.tail
+		dec.loadMore()
+		return nil, true
+	}
+	if utf16Length <= length/3 {
 		return dec.fastReadStringAsBytes(utf16Length), false
 	}
 	for {
@@ -88,7 +105,7 @@ func (dec *Decoder) readStringAsBytes(utf16Length int) (data []byte, safe bool) 
 		}
 		if !safe {
 			safe = true
-			data = make([]byte, 0, utf16Length*3)
+			data = make([]byte, 0, dec.prealloc(utf16Length)*3)
 		}
 		data = append(data, buf...)
 		if !dec.loadMore() {
